@@ -255,6 +255,7 @@ Print Assumptions C09_stream_partial.
 Theorem C09_stream_step : forall S i pos st h,
   zlen S < 1073741823 -> inv S i pos st -> seg_hop h = true -> hop_okb S h = true ->
   exists st' ev pos', step fixedv st (op_of S i h) = (st', ev, false) /\
+    s_rev_seen st' = s_rev_seen st /\
     pos <= pos' /\ inv S i pos' st' /\ ev_new ev = sub S pos (pos' - pos) /\ ev_clean ev.
 Proof. exact step_hop. Qed.
 Print Assumptions C09_stream_step.
